@@ -470,3 +470,44 @@ pub fn history_names(srv: &Server) -> String {
 pub fn c04_violation(srv: &Server) -> Option<Outcome> {
     srv.decode_errors.first().map(|(_, key, frame)| viol("c04/strict-parse", key, format!("strict parser rejected a client message: {} ; frame {}", key, crate::tape::hex_short(frame))))
 }
+
+/// Bring up a complete, active session for the scenarios that start from there (C06, C10-C12).
+/// A failure here is reported as "<prefix>/session-not-established" (it can only happen on a tree where
+/// the connection sequence itself is broken).
+pub fn establish(env: &mut crate::scen::Env, prefix: &str, auto_activate: bool) -> Result<(Session, ClientCfg, ServerParams), Outcome> {
+    let ctxrc = env.ctx.clone();
+    let (cfg, params, net, packing) = {
+        let mut ctx = ctxrc.borrow_mut();
+        let mut cfg = ClientCfg::plain();
+        cfg.nla = ctx.chance("est_nla", 1, 4);
+        cfg.width = *ctx.pick("est_w", &[800u16, 1024, 1, 65535]);
+        cfg.height = *ctx.pick("est_h", &[600u16, 768, 1, 65535]);
+        let selected = if cfg.nla { 2 } else { 1 };
+        let params = if ctx.chance("est_params", 1, 2) { ServerParams::generate(&mut ctx, selected) } else { ServerParams::default_for(selected) };
+        let net = gen_benign_net(&mut ctx);
+        let packing = match ctx.choose("packing", 4) { 0 => crate::refsrv::server::Packing::OnePerRecord, 1 => crate::refsrv::server::Packing::Coalesce, 2 => crate::refsrv::server::Packing::Split, _ => crate::refsrv::server::Packing::Mixed };
+        ctx.step_budget = 400_000;
+        ctx.key_str(&format!("{:?}{:?}{:?}{}", net.read_mode, net.write_mode, packing, cfg.nla));
+        (cfg, params, net, packing)
+    };
+    let world = World::new(ctxrc.clone(), params.clone(), net);
+    {
+        let mut srv = world.server.borrow_mut();
+        srv.packing = packing;
+        srv.auto_activate = auto_activate;
+    }
+    if cfg.nla {
+        crate::scen::install_nla(&world, &cfg);
+    }
+    let mut s = Session::connect(world, &cfg)?;
+    if let Err(k) = &s.connect_result {
+        return Err(viol(&format!("{}/session-not-established", prefix), "connect", format!("connect failed: {}", k)));
+    }
+    if auto_activate {
+        match s.activate(40)? {
+            Ok(()) => {}
+            Err(k) => return Err(viol(&format!("{}/session-not-established", prefix), "activation", format!("activation failed: {}", k))),
+        }
+    }
+    Ok((s, cfg, params))
+}
